@@ -13,6 +13,8 @@ PrimValues == <<
     VBool(TRUE), VBool(FALSE),
     VInt("0"), VInt("1"), VInt("7"), VInt("-1"), VInt("2147483648"), VInt("9223372036854775808"), VInt("123456789012345678901234567890"), VInt("-123456789012345678901234567890"),
     VFloat("0.0"), VFloat("1.5"), VFloat("-2.5"), VFloat("1e+300"), VFloat("5e-324"), VFloat("1e-07"), VFloat("123456789.125"), VFloat("inf"),
+    \* float constants written as integer literals (the exact value of the literal is the declared value): 7, 2^53, 2^53 + 1, 10^23
+    VFloat("7"), VFloat("9007199254740992"), VFloat("9007199254740993"), VFloat("100000000000000000000000"),
     VStr(<<>>), VStr(<<97>>), VStr(<<39>>), VStr(<<34>>), VStr(<<39, 34>>), VStr(<<39, 39, 34>>), VStr(<<34, 34, 39>>), VStr(<<92>>), VStr(<<92, 110>>), VStr(<<92, 39>>), VStr(<<97, 92>>),
     VStr(<<10>>), VStr(<<13>>), VStr(<<13, 10>>), VStr(<<9>>), VStr(<<1>>), VStr(<<7, 8, 11, 12>>), VStr(<<27>>), VStr(<<127>>), VStr(<<133>>), VStr(<<8232>>), VStr(<<65279>>),
     VStr(<<128512>>), VStr(<<97, 128512, 98>>), VStr(<<233, 8364>>), VStr(<<123, 125>>), VStr(<<123, 120, 125>>), VStr(<<37, 115>>), VStr(<<36, 123, 120, 125>>), VStr(<<34, 34, 34>>), VStr(<<39, 39, 39>>),
